@@ -1045,6 +1045,10 @@ func c15Blocks(tier string) []c15Block {
 	both("occ", 4, 1, c15SymNt, c15SymAa, c15Repls)
 	both("occ", 5, 1, c15SymNt, c15SymAa, c15Repls)
 	both("occ", 4, 2, c15SymNt, c15SymAa, c15Repls)
+	// six rows, three letters and the gap: two characters above the threshold with the more frequent one later
+	// in byte order, beside a rare one (2 + 3 + 1)
+	both("occ", 6, 1, "ACT-", "ACW-", c15Repls)
+	both("mask", 6, 1, "ACT-", "ACW-", c15Repls)
 	if tier == "thorough" {
 		both("mask", 4, 2, c15SymNt, c15SymAa, c15Repls)
 		both("occ", 5, 2, c15SymNt, c15SymAa, c15Repls)
